@@ -145,6 +145,30 @@ ExtrapolateClauses(e) == LET cfg == e.call.cfg  o == e.obs
      C("templates", o.out = NamePh(out)),
      C("replaced", o.replaced = NamePh(rep)) >>
 
+\* ---- C05: Sid -> path -> Sid in every configuration, every spelling of the call
+CfgOk(d, x) == LET p == ToPath(d.cfg, x) IN
+   /\ d.raised = ""
+   /\ (p = <<>>) = d.is_none
+   /\ (p # <<>> => SamePath(d.path, p))
+   /\ d.kw.raised = "" /\ d.kw.same /\ d.again.raised = "" /\ d.again.same
+   /\ \A i \in DOMAIN d.alts : d.alts[i].raised = "" /\ d.alts[i].same
+   /\ ("default" \in DOMAIN d => d.default.raised = "" /\ d.default.same)
+   /\ (p # <<>> => d.back.raised = "" /\ Same(d.back, x) /\ d.back.eq /\ d.back_str.raised = "" /\ d.back_str.eq)
+ToPathClauses(e) == LET x == ResolveFirst(e.call.segs)  o == e.obs IN
+  << C("self", Same(o.self, x)) >>
+  \o [i \in DOMAIN o.cfgs |-> C("cfg_" \o o.cfgs[i].cfg, CfgOk(o.cfgs[i], x))]
+  \o << C("noraise", \A i \in DOMAIN o.cfgs : o.cfgs[i].raised = "" /\ o.cfgs[i].kw.raised = ""),
+        C("same_up_to_root", \A i, j \in DOMAIN o.cfgs : o.cfgs[i].path = o.cfgs[j].path),
+        C("roundtrip", \A i \in DOMAIN o.cfgs : o.cfgs[i].is_none \/ (o.cfgs[i].back.raised = "" /\ Same(o.cfgs[i].back, x))) >>
+
+\* ---- C06: arbitrary paths
+FromPathClauses(e) == LET r == FromPath(e.call.cfg, e.obs.lexed)  o == e.obs IN
+  << C("noraise", o.raised = "" /\ o.back.raised = ""),
+     C("untyped_or_owner", o.raised # "" \/ o.type = "" \/ o.back.same),
+     C("type", o.raised # "" \/ r.amb \/ o.type = r.sid.type),
+     C("fields", o.raised # "" \/ r.amb \/ o.fields = r.sid.fields),
+     C("string", o.raised # "" \/ r.amb \/ o.string = r.sid.string) >>
+
 Clauses(e) ==
   IF "raised" \in DOMAIN e.obs /\ StrStarts(e.obs.raised, "HARNESS") THEN << C("harness", FALSE) >>
   ELSE CASE e.call.op = "sid"     -> SidClauses(e)
@@ -158,6 +182,8 @@ Clauses(e) ==
          [] e.call.op = "match"   -> MatchClauses(e)
          [] e.call.op = "algebra" -> AlgebraClauses(e)
          [] e.call.op = "extrapolate" -> ExtrapolateClauses(e)
+         [] e.call.op = "topath"  -> ToPathClauses(e)
+         [] e.call.op = "frompath" -> FromPathClauses(e)
          [] OTHER -> << C("unknown_op", FALSE) >>
 
 \* coverage tag of a line (which row of a decision table / which case the line exercised)
@@ -177,6 +203,10 @@ Tag(e) ==
   ELSE IF e.call.op = "extrapolate" THEN
         "extrapolate:" \o (IF e.call.cfg.toX = <<>> THEN "none" ELSE IF Len(e.call.cfg.toX) = 1 THEN "one" ELSE "many")
                        \o (IF e.call.cfg.kps = <<>> THEN "" ELSE ":replace")
+  ELSE IF e.call.op = "topath" THEN LET x == ResolveFirst(e.call.segs) IN
+        "topath:" \o (IF x.type = "" THEN "untyped" ELSE IF \E c \in PathConfigs : HasPath(c, x.type) THEN x.type ELSE "nopath")
+  ELSE IF e.call.op = "frompath" THEN LET r == FromPath(e.call.cfg, e.obs.lexed) IN
+        "frompath:" \o e.call.cfg \o ":" \o (IF r.amb THEN "ambiguous" ELSE IF r.sid.type = "" THEN "untyped" ELSE "typed")
   ELSE e.call.op
 Bump(cov, t) == [x \in DOMAIN cov \cup {t} |-> IF x = t THEN (IF t \in DOMAIN cov THEN cov[t] + 1 ELSE 1) ELSE cov[x]]
 Failed(e) == SelectSeq(Clauses(e), LAMBDA c : ~c[2])
